@@ -62,9 +62,14 @@ class RuleAnalysis(Analysis):
             return True
         return False
 
+    SILENT_CMS = ("suppress", "nullcontext", "ExitStack", "AsyncExitStack", "closing")
+
     def may_raise(self, node: Any, fact) -> Iterable[str]:
         if self.cannot_raise(node):
             return []
+        if isinstance(node, (WithEnter, WithExit)) and isinstance(node.item.context_expr, ast.Call) \
+                and (dotted(node.item.context_expr.func) or "").split(".")[-1] == "suppress":
+            return []  # entering / leaving contextlib.suppress() runs no code that can fail
         return super().may_raise(node, fact)
 
 
